@@ -28,6 +28,12 @@ CHECKS = {
    note="Trusted: exactlp certificates; exact null space by rational Gauss elimination. pfba_factor exact only for fraction 1; loopless exact only without forced loops and <= 6 cycle reactions; unbounded ranges skipped as out of domain.",
    technique="runtime oracle monitor (exact rational FVA / loopless enumeration)",
    ref="DESIGN.md §4 C05"),
+ "C06": dict(
+   level="exploration",
+   text="Exact oracle monitor over result frames: every row of single/double gene/reaction deletions (fba and linear moma, 1/2/4 processes, lists as objects/ids/partial/with repeats) is compared with the exact optimum of the independently knocked-out problem (genes -> reactions through the generator's own rule trees); row bookkeeping (each unordered combination exactly once), the knockout accessor and find_essential_genes/reactions sets are judged too. Linear MOMA growth must lie in the exact interval of the old objective over all minimal-adjustment solutions.",
+   note="Trusted: exactlp certificates, 10-line rule evaluator. Finite bounds; thresholds within 1e-4 of an exact growth are borderline-skipped (so < vs <= at an exact tie is not decided).",
+   technique="runtime oracle monitor (exact LP per knock-out) + row bookkeeping checker",
+   ref="DESIGN.md §4 C06"),
  "C07": dict(
    level="exploration",
    text="Independent oracle (truth table from the generator's own and/or tree) judged after every single knock-out: bounds of every reaction, gene.functional, reaction.functional and the solver's variable bounds; per generated model all gene subsets, all orders for subsets <= 4, four API forms, inside and outside a context (restore checked on exit).",
